@@ -1,7 +1,10 @@
-(** * C19 — Sign-constrained quantities can never be invalid (quantity part).
-    Statements only; proofs in UnitsValid, about the REGENERATED description [GEN]. *)
+(** * C19 — Sign-constrained quantities can never be invalid; component constructors reject non-physical parameters.
+    Statements only.  First clause: proofs in UnitsValid, about the REGENERATED description [GEN].  Second clause: the constructor
+    models of coq/Components.v (tied to gearpy's DCMotor, SpurGear, HelicalGear, WormGear, WormWheel, Flywheel constructors and the
+    duty-cycle setter by comparing the outcome of thousands of calls with valid, boundary, wrongly typed and non-physical arguments),
+    proofs in ComponentsR. *)
 From Coq Require Import ZArith QArith Reals String List Bool PrimFloat.
-From GP Require Import ArithDef FloatUtil UnitsCore PyUnits RealArith Spec UnitsR UnitsValid QuantityCorr.
+From GP Require Import ArithDef FloatUtil UnitsCore PyUnits RealArith Spec UnitsR UnitsValid QuantityCorr QOps Motor Relations Gears Components ComponentsR Examples.
 From GP.gen Require Import UnitsGen.
 Open Scope R_scope. Open Scope string_scope.
 
@@ -34,6 +37,74 @@ Theorem C19_programs : forall ops : list UnitsValid.qop, Forall valid (UnitsVali
 Proof. exact exec_valid. Qed.
 
 (** non-vacuity (binary64 instance): rejected constructions and rejected results really are rejected, accepted ones accepted *)
+(** ** second clause: component constructors *)
+(** an accepted DC motor, for every arithmetic: positive no-load speed and maximum torque values, non-negative no-load current, positive
+    maximum current, and the quantity comparison  i0 >= imax  is false *)
+Theorem C19_motor_constructor : forall (A : Arith) name J w0 tmax i0 imax n j (m : @motor A),
+  motor_ctor name J w0 tmax i0 imax = Ok (n, j, m) ->
+  n <> ""%string /\ is_subkind GEN (qk j) KInertiaMoment = true /\
+  is_subkind GEN (qk (m_w0 m)) KAngularSpeed = true /\ is_subkind GEN (qk (m_Tmax m)) KTorque = true /\
+  leb (qv (m_w0 m)) zero = false /\ leb (qv (m_Tmax m)) zero = false /\
+  (forall a, m_i0 m = Some a -> is_subkind GEN (qk a) KCurrent = true /\ ltb (qv a) zero = false) /\
+  (forall b, m_imax m = Some b -> is_subkind GEN (qk b) KCurrent = true /\ leb (qv b) zero = false) /\
+  (forall a b, m_i0 m = Some a -> m_imax m = Some b -> q_ge a b = Ok false).
+Proof. exact (@motor_ctor_checks). Qed.
+(** ... hence, over the reals and in SI, whatever the units: 0 < w0, 0 < Tmax, 0 <= i0 < imax — exactly the hypotheses under which
+    the motor characteristic (C08), the limit-current rule (C15) and the convergence theorem (C04) are stated *)
+Theorem C19_motor_parameters_physical : forall name J w0 tmax i0 imax n j (m : @motor RA) a b W0 TM I0 IM,
+  motor_ctor name J w0 tmax i0 imax = Ok (n, j, m) -> m_i0 m = Some a -> m_imax m = Some b ->
+  si (m_w0 m) = Ok W0 -> si (m_Tmax m) = Ok TM -> si a = Ok I0 -> si b = Ok IM ->
+  qk (m_w0 m) = KAngularSpeed /\ qk (m_Tmax m) = KTorque /\ qk a = KCurrent /\ qk b = KCurrent /\ qk j = KInertiaMoment /\
+  0 < W0 /\ 0 < TM /\ 0 <= I0 < IM.
+Proof. exact motor_parameters_physical. Qed.
+(** spur gear (GearBase): not fewer teeth than the first row of the regenerated Lewis table; a given elastic modulus has a positive value *)
+Theorem C19_gear_constructor : forall (A : Arith) kind name n J module face emod nm j (g : @gear A),
+  gearbase_ctor kind name n J module face emod = Ok (nm, j, g) ->
+  g_kind g = kind /\ @ltb A (of_Z (g_n g)) min_teeth = false /\
+  (forall q, g_module g = Some q -> is_subkind GEN (qk q) KLength = true) /\
+  (forall q, g_face g = Some q -> is_subkind GEN (qk q) KLength = true) /\
+  (forall q, g_emod g = Some q -> is_subkind GEN (qk q) KStress = true /\ leb (qv q) zero = false).
+Proof. exact (@gearbase_ctor_checks). Qed.
+(** helical gear: additionally the comparison  helix >= 90 deg  is false; over the reals the helix angle is below pi/2 and the modulus positive in SI *)
+Theorem C19_helical_constructor : forall (A : Arith) kind name n J helix module face emod nm j (g : @gear A),
+  helical_ctor kind name n J helix module face emod = Ok (nm, j, g) ->
+  @ltb A (of_Z (g_n g)) min_teeth = false /\
+  (forall q, g_emod g = Some q -> leb (qv q) zero = false) /\
+  exists h, g_helix g = Some h /\ is_subkind GEN (qk h) KAngle = true /\ q_ge h A90 = Ok false.
+Proof. exact (@helical_ctor_checks). Qed.
+Theorem C19_helical_parameters_physical : forall kind name n J helix module face emod nm j (g : @gear RA) h H,
+  helical_ctor kind name n J helix module face emod = Ok (nm, j, g) -> g_helix g = Some h -> si h = Ok H ->
+  H < PI / 2 /\ (forall e E, g_emod g = Some e -> si e = Ok E -> 0 < E).
+Proof. exact helical_parameters_physical. Qed.
+(** worm gear and worm wheel: at least one start / the minimum teeth number; the pressure angle compares equal to a row of the regenerated
+    worm table and the comparison  helix > that row's limit  is false *)
+Theorem C19_worm_constructor : forall (A : Arith) name n J helix pa dref nm j (g : @gear A),
+  worm_ctor name n J helix pa dref = Ok (nm, j, g) ->
+  (1 <= g_n g)%Z /\ exists h p, g_helix g = Some h /\ g_pa g = Some p /\ check_pa_helix p h = Ok tt.
+Proof. exact (@worm_ctor_checks). Qed.
+Theorem C19_wheel_constructor : forall (A : Arith) name n J helix pa module face nm j (g : @gear A),
+  wheel_ctor name n J helix pa module face = Ok (nm, j, g) ->
+  @ltb A (of_Z (g_n g)) min_teeth = false /\
+  exists h p, g_helix g = Some h /\ g_pa g = Some p /\ q_ge h A90 = Ok false /\ check_pa_helix p h = Ok tt.
+Proof. exact (@wheel_ctor_checks). Qed.
+Theorem C19_pa_helix_means : forall (A : Arith) (pa h : qty A), check_pa_helix pa h = Ok tt ->
+  exists mx y m, pa_row worm_table pa = Ok (Some (mx, y)) /\ q_new KAngle mx "deg" = Ok m /\ q_gt h m = Ok false.
+Proof. exact (@check_pa_helix_ok). Qed.
+(** the duty-cycle setter accepts exactly numbers within [-1, 1] *)
+Theorem C19_pwm_setter : forall (A : Arith) x v, @pwm_setter A x = Ok v -> leb (neg one) v = true /\ leb v one = true.
+Proof. exact (@pwm_setter_range). Qed.
+
+(** non-vacuity: a motor that is accepted, and three that are rejected with ValueError (zero no-load speed, i0 = imax in another unit,
+    no-load current above the maximum) — binary64 instance *)
+Definition mk_motor (w0 : float) (i0 : qty FX0) : bool * bool :=
+  match @motor_ctor FX0 (CStr "m") (CQ (Qx KInertiaMoment 1 "kgm^2")) (CQ (Qx KAngularSpeed w0 "rpm")) (CQ (Qx KTorque 0x1p-1 "Nm"))
+                    (CQ i0) (CQ (Qx KCurrent 2 "A")) with
+  | Ok _ => (true, false) | Err ValueError => (false, true) | Err _ => (false, false) end.
+Example C19_ctor_nonvacuous :
+  fst (mk_motor 3000 (Qx KCurrent 100 "mA")) && snd (mk_motor 0 (Qx KCurrent 100 "mA")) &&
+  snd (mk_motor 3000 (Qx KCurrent 2000 "mA")) && snd (mk_motor 3000 (Qx KCurrent 3 "A")) = true.
+Proof. vm_compute. reflexivity. Qed.
+
 Example C19_nonvacuous :
   res_pyval_is (q <- @ctor F0 GEN KLength (-1)%float "m" ;; Ok (@PQ F0 q)) (XErr ValueError)
   && res_pyval_is (q <- @ctor F0 GEN KAngle 0%float "deg" ;; Ok (@PQ F0 q)) (XQ KAngle 0%float "deg")
@@ -46,3 +117,5 @@ Proof. vm_compute. reflexivity. Qed.
 Print Assumptions C19_programs.
 Print Assumptions C19_constructor.
 Print Assumptions C19_results_are_constructed.
+Print Assumptions C19_motor_constructor.
+Print Assumptions C19_motor_parameters_physical.
